@@ -6,8 +6,10 @@
 
   * `fmqOf` / `o2Of`            fairmq.go  NewFairMQTransitioner (stateMap / invStateMap),
                                  fmqStateForState / stateForFmqState
-  * `commitFMQ`                 fairmq.go  Commit, doConfigure, doReset (roll-backs included, and
-                                 the fact that doConfigure goes on after a roll-back)
+  * `commitFMQ`                 fairmq.go  Commit, doConfigure, doReset (roll-backs included), as a
+                                 function of `Cfg`: `codeCfg` = the code as it is, `legacyCfg` /
+                                 `originalCfg` = the code before the `fix:` commits (doConfigure went on
+                                 after a roll-back; GO_ERROR / RECOVER answered with err = nil)
   * `commitDirect`              direct.go  Commit
   * `accept`                    client.go  doTransition — the rule by which a reply is accepted
   * `Dev.step`                  the DEVICE: its transition graph and what it answers. The graph of a
@@ -129,10 +131,11 @@ inductive ErrKind where
   | nil         -- reply accepted
   | rejected    -- a reply arrived but the acceptance rule said no ("transition unsuccessful: …")
   | transport   -- gRPC error ("occplugin returned …"): no reply, newState = ""
+  | unimplemented -- fairmq.go Commit itself: "transition not implemented: …" (GO_ERROR, RECOVER); the device was not asked
   deriving DecidableEq, Repr, Inhabited
 
 def ErrKind.name : ErrKind → String
-  | .nil => "nil" | .rejected => "rejected" | .transport => "transport"
+  | .nil => "nil" | .rejected => "rejected" | .transport => "transport" | .unimplemented => "unimplemented"
 
 /-- `transitioner.EventInfo` (Args reduced to "was a non-nil map passed on"). -/
 structure Ask (σ ε : Type) where
@@ -224,7 +227,7 @@ inductive Prog (σ ε : Type) where
 abbrev FProg := Prog FState FEvent
 
 /-- fairmq.go doReset, with the caller's continuation (`Commit` case "EXIT" looks at the result).
-    `fixed` switches the proposed repair on (no effect here; see `commitFMQ`). -/
+    Neither repair touches it (see `commitFMQ`). -/
 def doReset (src dst : O2State) (k : Option O2State → ErrKind → FProg) : FProg :=
   .ask ⟨.RESET_TASK, fmqOf src, .DEVICE_READY, false⟩ fun r1 =>
   if r1.state ≠ some .DEVICE_READY then k (o2Of? r1.state) r1.err else
@@ -236,7 +239,7 @@ def doReset (src dst : O2State) (k : Option O2State → ErrKind → FProg) : FPr
 
 /-- fairmq.go doConfigure. After the first two roll-backs the code does NOT return: it issues the next
     forward step (whose `state, err =` overwrite what the roll-back returned). `fixed = true` is the
-    proposed repair (notes/C16.fix.patch): return what the roll-back reached. -/
+    first repair (notes/C16.fix.patch, in /repo): return what the roll-back reached. -/
 def doConfigure (fixed : Bool) (src dst : O2State) : FProg :=
   .ask ⟨.INIT_DEVICE, fmqOf src, .INITIALIZING_DEVICE, true⟩ fun r1 =>
   if r1.state ≠ some .INITIALIZING_DEVICE then .ret (o2Of? r1.state) r1.err else
@@ -261,15 +264,32 @@ def doConfigure (fixed : Bool) (src dst : O2State) : FProg :=
   else if r3.state ≠ some .BOUND then .ret (o2Of? r3.state) r3.err
   else connect
 
-/-- fairmq.go (*FairMQ).Commit for the seven O² events. `fixed = true` additionally lets END after the
-    implicit reset name the state the device is then in (IDLE) as its source. -/
-def commitFMQ (fixed : Bool) (evt : O2Event) (src dst : O2State) : FProg :=
+/-- Which of the two repaired behaviours of fairmq.go the transitioner has (each `true` = as in the
+    `fix:` commit in /repo, `false` = as before it).
+    * `stopsAfterRollback`    "FairMQ transitioner stops after a roll-back and sends END from the state the
+                              reset reached": doConfigure returns what its roll-back reached, END after the
+                              implicit reset of EXIT names IDLE as its source.
+    * `refusesUnimplemented`  "FairMQ transitioner reports GO_ERROR and RECOVER as not implemented instead of
+                              as done": the branch of the two events that fairmq.go does not implement returns
+                              an error next to the source state (before: `err = nil`). -/
+structure Cfg where
+  stopsAfterRollback : Bool
+  refusesUnimplemented : Bool
+  deriving DecidableEq, Repr, Inhabited
+
+/-- fairmq.go (*FairMQ).Commit for the seven O² events. `cfg.stopsAfterRollback` additionally lets END after
+    the implicit reset name the state the device is then in (IDLE) as its source. -/
+def commitFMQ (cfg : Cfg) (evt : O2Event) (src dst : O2State) : FProg :=
+  let fixed := cfg.stopsAfterRollback
   let one (e : FEvent) (s : FState) : FProg :=
     .ask ⟨e, s, fmqOf dst, true⟩ fun r => .ret (o2Of? r.state) r.err
   match evt with
   | .START => one .RUN (fmqOf src)
   | .STOP => one .STOP (fmqOf src)
-  | .RECOVER | .GO_ERROR => .ret (some src) .nil      -- "transition not implemented yet": finalState = src, err = nil
+  | .RECOVER | .GO_ERROR =>
+    -- "transition not implemented yet": the device is not asked, finalState = src;
+    -- err = "transition not implemented: <evt>" (before the repair: err = nil)
+    .ret (some src) (if cfg.refusesUnimplemented then .unimplemented else .nil)
   | .CONFIGURE => doConfigure fixed src dst
   | .RESET => doReset src dst .ret
   | .EXIT =>
@@ -319,16 +339,26 @@ def Prog.runs {σ ε : Type} [DecidableEq σ] (D : Dev σ ε) (strict : Bool) : 
       let res := D.step strict dev a o
       ((k res.2).runs D strict res.1).map fun r => { r with steps := ⟨a, o, dev, res.1⟩ :: r.steps }
 
-/-- The code as it is has the repair (`fix:` commit "FairMQ transitioner stops after a roll-back …" in /repo);
-    `fixed = false` is the code before it. Tied to the source by the exhaustive correspondence run. -/
-def codeFixed : Bool := true
+/-- THE CODE AS IT IS: both repairs are in /repo. Tied to the source by the exhaustive correspondence run
+    (every cell × every consumable script, harness/props/c16) and, for the branch of the unimplemented
+    events, by `C16_unimplemented_is_code` over a table `vh gen` evaluates from the linked transitioner. -/
+def codeCfg : Cfg := ⟨true, true⟩
+
+/-- The code before the `fix:` commit "… reports GO_ERROR and RECOVER as not implemented …" (and after the
+    first one): what finding `unimplemented_event` was about. -/
+def legacyCfg : Cfg := ⟨true, false⟩
+
+/-- The code before both `fix:` commits: what finding `stale_src_request` was about. -/
+def originalCfg : Cfg := ⟨false, false⟩
+
+def Cfg.all : List Cfg := [⟨false, false⟩, ⟨false, true⟩, ⟨true, false⟩, ⟨true, true⟩]
 
 /-- The FAIRMQ transitioner against a FairMQ device that is in the state the request names as source. -/
-def runFMQ (fixed strict : Bool) (evt : O2Event) (src : O2State) (script : List Outcome) : Run FState FEvent :=
-  (commitFMQ fixed evt src (dstOf evt)).run fmqDev strict (fmqOf src) script
+def runFMQ (cfg : Cfg) (strict : Bool) (evt : O2Event) (src : O2State) (script : List Outcome) : Run FState FEvent :=
+  (commitFMQ cfg evt src (dstOf evt)).run fmqDev strict (fmqOf src) script
 
-def runsFMQ (fixed strict : Bool) (evt : O2Event) (src : O2State) : List (Run FState FEvent) :=
-  (commitFMQ fixed evt src (dstOf evt)).runs fmqDev strict (fmqOf src)
+def runsFMQ (cfg : Cfg) (strict : Bool) (evt : O2Event) (src : O2State) : List (Run FState FEvent) :=
+  (commitFMQ cfg evt src (dstOf evt)).runs fmqDev strict (fmqOf src)
 
 /-- The DIRECT transitioner against an OCC-library device in the source state. -/
 def runDirect (strict : Bool) (evt : O2Event) (src : O2State) (script : List Outcome) : Run O2State O2Event :=
